@@ -89,6 +89,7 @@ func obsValue(lines []string, name string) (string, bool) {
 var sqlRefereeIDs = map[string]string{ // assertion id -> which observed SQL text it is about
 	"inline-confined": "sql", "inline-columns-are-query-fields": "sql", "inline-strings-are-query-values": "sql",
 	"param-confined": "psql", "param-columns-are-query-fields": "psql",
+	"value-confined": "sql", "value-param-confined": "psql",
 	"ident-confined": "sql", "ident-is-the-name": "sql", "ident-param-confined": "psql", "ident-param-is-the-name": "psql",
 }
 
